@@ -284,9 +284,10 @@ Fixpoint all_emits (a : hact) : list Z :=
 (* the order in which the given statements occur in the final list *)
 Definition restrict (keep : list Z) (l : list Z) : list Z := filter (fun x => existsb (Z.eqb x) keep) l.
 
-(* A repaired bookkeeping (proposed, not in /repo today): every hygienized function owns a cursor into the
-   statement list; an injection at position k moves every OTHER cursor at or after k one step on.
-   Executable model only, used for the correspondence when the scrape finds this variant. *)
+(* The bookkeeping of ppcontext.lua since 6cc3727: every hygienized function owns a cursor into the
+   statement list; an injection at position k moves every OTHER cursor at or after k one step on
+   (PPContext:inject_statement, PPContext:hygienize).  [h_run] above is the index bookkeeping used before,
+   kept for the refutation in ProofsInject.v and for scratch copies that revert the repair. *)
 Record hcst := mkHC {
   hc_nodes : list Z;
   hc_cur : option nat;                 (* statnodes.addindex *)
